@@ -225,3 +225,38 @@ PROPS["C11"] = dict(
     level_note="Known findings D8 (one-shot iterators re-sent empty) and D20 (chunked + wide-item buffer) reported as KNOWN-FINDING. Fixed: D21.",
     technique="bounded strict parse of the emitted bytes on an in-memory socket + one deductive site obligation on the real urlopen",
 )
+
+_TLS_ASSUME = ["simulated TLS handshake = the assumed OpenSSL contract (fails iff verify_mode != CERT_NONE and the chain is untrusted, or check_hostname is on and the server name is not among the certificate names); real handshakes are outside this family",
+               "ssl_wrap_socket is the only function replaced; context creation, flag handling, hostname/fingerprint assertions, tunnel set-up and request writing are the real code on an in-memory socket"]
+PROPS["C07"] = dict(
+    contracts=["ssl_match_hostname"], bounded=["c07", "c08"], level="other", trusted_base=COMMON_TRUSTED, assumptions=_TLS_ASSUME,
+    not_decided=["pyOpenSSL backend, OPTIONAL cert_reqs, ca_certs loading, real certificates: not covered", "tunnelled connections appear in the C09 table (proxy verification failure => nothing sent)",
+                 "_ssl_wrap_socket_and_match_hostname is not yet under the VC generator (finite lattice designed in DESIGN section 5 C07): decided by the bounded lattice only; match_hostname's dispatch is proved (C08 obligations reused)"],
+    explanation="(1) PROVED: match_hostname's dispatch (shared with C08). (2) BOUNDED, complete over the finite lattice cert_reqs x assert_hostname x assert_fingerprint x ssl_context flavour x peer trust x certificate names (720 points): through the real "
+                "HTTPSConnectionPool / HTTPSConnection / _ssl_wrap_socket_and_match_hostname with a simulated handshake, a request is written only if the peer passes what the settings demand (pin equality; else chain when required and a name match unless "
+                "assert_hostname is False), failures surface as SSLError, InsecureRequestWarning iff unverified. The name matcher's bounded contract (C08) is run as part of this check.",
+    level_text="Bounded complete case analysis of the verification lattice through the real code with a simulated handshake (the assumed OpenSSL contract) + the match_hostname dispatch proof; not a deductive proof of the lattice.",
+    level_note="Everything about real TLS is an assumption. Observation D12 (no InsecureRequestWarning for an unverified origin inside a tunnel whose proxy was verified by fingerprint) is not covered by the lattice and not claimed either way.",
+    technique="bounded exhaustive case analysis of the TLS settings lattice through the real code (simulated handshake) + contract proof of match_hostname's dispatch",
+)
+PROPS["C09"] = dict(
+    contracts=["stdlib", "util_timeout", "util_retry", "util_url", "connectionpool", "poolmanager_urlopen"], bounded=["c09"], level="other", trusted_base=COMMON_TRUSTED, assumptions=_TLS_ASSUME + _BOUNDARY,
+    not_decided=["stdlib _tunnel (CONNECT exchange) and TLS are assumed; SOCKS proxies not covered"],
+    explanation="(1) PROVED: connection_requires_http_tunnel implements the documented truth table (no proxy / http destination never tunnel; https via http proxy always tunnels; https via https proxy tunnels unless forwarding was opted into); "
+                "PoolManager.urlopen sends absolute-form iff forwarding else origin-form (path?query, no fragment/userinfo); HTTPConnectionPool.urlopen merges proxy headers only when not tunnelling and only into a fresh copy; _make_request wraps pre-connect failures. "
+                "(2) BOUNDED, complete over the routing table (144 points) on the in-memory network with simulated TLS: only the proxy is dialled, CONNECT host:port (IPv6 bracketed) with proxy headers, TLS for the destination name inside the tunnel, origin-form inside, "
+                "no proxy header inside, nothing sent after a refused CONNECT or a proxy failing verification, closed pooled tunnel connections are re-tunnelled.",
+    level_text="Partial proof (truth table, request form, header-merge site obligations) + bounded complete routing table through the real code.",
+    level_note="TLS and the CONNECT exchange are assumed/simulated.",
+    technique="contract-based deductive verification (truth table + site obligations, z3) + bounded exhaustive routing table on an in-memory network",
+)
+PROPS["C15"] = dict(
+    contracts=["stdlib", "util_timeout", "util_retry", "util_url", "connectionpool", "poolmanager_urlopen"], bounded=["c15"], level="other", trusted_base=COMMON_TRUSTED, assumptions=_TLS_ASSUME + _BOUNDARY + ["parse_url's component split: bounded contract (C14)"],
+    not_decided=["the chain of small string contracts URL -> dial host / SNI (DESIGN section 5 C15) is only partly under the VC generator (request form); the rest is decided by the bounded URL-to-wire sweep"],
+    explanation="(1) PROVED over the real PoolManager.urlopen: the pool is asked to send exactly origin-form path?query ('/' when empty; never fragment or userinfo) - or the absolute URL when forwarding - with the requested method. "
+                "(2) BOUNDED: 672 URL shapes (scheme case, host case, trailing dot, IPv6, zone id, IPv4, ports, path/query/fragment shapes) through the real PoolManager on the in-memory network: dial host and port, Host header, TLS server name "
+                "(no brackets / zone / trailing dot), request target; equivalent URLs share a pool and produce identical bytes.",
+    level_text="Partial proof (request-form site obligation) + bounded URL-to-wire sweep through the real code.",
+    level_note="Host header construction is the stdlib's (assumed).",
+    technique="contract-based deductive verification (site obligation with string VCs, z3) + bounded URL-to-wire sweep on an in-memory network",
+)
